@@ -148,7 +148,9 @@ fn run_case(text: &str, kw: &str, case: &str, nontrivial: bool, rep: &mut Report
     match compare(text) {
         Cmp::AgreeOk(_, _, tree) => {
             rep.count("members_accepted");
-            rep.distinct("keywords_as_member", kw);
+            if crate::spec::keyword(kw).is_some() {
+                rep.distinct("keywords_as_member", kw);
+            }
             if nontrivial {
                 rep.nontrivial(text);
             }
@@ -159,7 +161,9 @@ fn run_case(text: &str, kw: &str, case: &str, nontrivial: bool, rep: &mut Report
         }
         Cmp::AgreeErr(msg, _) => {
             rep.count("nonmembers_refused");
-            rep.distinct("keywords_as_nonmember", kw);
+            if crate::spec::keyword(kw).is_some() {
+                rep.distinct("keywords_as_nonmember", kw);
+            }
             if nontrivial {
                 rep.nontrivial(text);
             }
